@@ -22,8 +22,8 @@ def UNWINDSET(l):
 def atomic_instances(tier):
     out = []
     # (L, crash, faults, no_backup, if_changed)
-    combos = [(1, 1, 1, 1, 0), (1, 0, 1, 0, 0), (1, 1, 0, 0, 0), (1, 0, 1, 0, 1)] if tier == 'quick' else \
-             [(l, c, f, nb, ic) for l in (1, 2) for (c, f) in ((1, 1), (0, 2), (1, 2)) for nb in (0, 1) for ic in (0, 1)] + [(3, 1, 1, 0, 0), (3, 1, 1, 1, 0)]
+    combos = [(1, 1, 1, 1, 0), (1, 0, 1, 0, 0), (1, 1, 0, 0, 0), (1, 0, 1, 0, 1), (2, 0, 1, 0, 0)] if tier == 'quick' else \
+             [(l, c, f, nb, 0) for l in (1, 2) for (c, f) in ((1, 1), (0, 2)) for nb in (0, 1)] + [(1, 1, 1, 0, 1), (1, 1, 2, 1, 0)]
     for (l, crash, nf, nb, ic) in combos:
         out.append(dict(name='L%d-crash%d-faults%d-nobackup%d-ifchanged%d' % (l, crash, nf, nb, ic),
                         bound='original and formatted content: all byte strings of length %d; in-place, --no-backup=%d, --if-changed=%d; formatting may fail; '
@@ -72,7 +72,7 @@ OBLIGATIONS = [
     dict(COMMON, id='CHK-NOWRITE', entry='vp_chk_nowrite', instances=nowrite_instances),
     dict(COMMON, id='ST-RESET', entry='vp_st_reset', instances=lambda tier: plain_instances(tier)[:1],
          assumptions=['arbitrary valuation of the per-file fields of cpd that uncrustify_end() is responsible for; a chunk list of 0..2 chunks']),
-    dict(COMMON, id='BK-STEP', entry='vp_bk_step', instances=lambda tier: plain_instances(tier)[:1] if tier == 'quick' else [dict(i, timeout=3400) for i in plain_instances(tier)[:5]]),
+    dict(COMMON, id='BK-STEP', entry='vp_bk_step', instances=lambda tier: [dict(i, timeout=1500) for i in plain_instances(tier)[:1]] if tier == 'quick' else [dict(i, timeout=3400) for i in plain_instances(tier)[:5]]),
 ]
 PROPERTIES = {
     'C11': dict(obligations=['ST-RESET'],
